@@ -21,4 +21,11 @@ Check == i <= Len(Events) =>
        (e.quoted = ls[e.line] \/ StripCR(e.quoted) = StripCR(ls[e.line])
         \/ PrintT(<<"BADDIAG", e.id, "quoted line is not the source line">>))
   /\ (e.stage = "panic" \/ "friendly" \notin DOMAIN e \/ e.friendly) \/ PrintT(<<"BADDIAG", e.id, "empty friendly message">>)
+  \* a lexical error (a character no token starts with, written by the driver at a known place) is reported THERE
+  /\ ("want_line" \notin DOMAIN e \/ ~e.haspos \/ (e.line = e.want_line /\ e.col = e.want_col))
+       \/ PrintT(<<"BADDIAG", e.id, "the lexical error is reported somewhere else">>)
+  \* the message is rendered from the source text as it is (no "%!" marker of a misused format string)
+  /\ ("garbled" \notin DOMAIN e \/ ~e.garbled) \/ PrintT(<<"BADDIAG", e.id, "message garbled by a format directive in the source">>)
+  \* a construct that must be refused (an if / switch without condition) was accepted
+  /\ e.stage # "accepted" \/ PrintT(<<"BADDIAG", e.id, "a program with a missing condition was accepted">>)
 =============================================================================
